@@ -138,11 +138,31 @@ def add_sanitizers(m, core, prop, work, seed):
         jobs.append(("hostile-" + sc, "hostile", ["--scenario", sc], True))
     a, av, ai = sanitizers.asan(core, work, seed, jobs)
     mi, mv, mii = sanitizers.miri(core, work)
+    tjobs = [j for j in jobs if not j[0].startswith("hostile-tls")]
+    tjobs += [("stress-default-500us", "stress", ["--config", "default", "--seed", str(seed + 7), "--jobs", "6000", "--interval-us", "500", "--fillers", "3", "--time-limit", "90"], True),
+              ("stress-cancelable-500us", "stress", ["--config", "cancelable", "--seed", str(seed + 8), "--jobs", "4000", "--interval-us", "500", "--fillers", "2", "--time-limit", "90"], True),
+              ("hostile-slow-reporter-first-send", "hostile", ["--scenario", "slow-reporter-first-send"], True),
+              ("hostile-reporter-traces", "hostile", ["--scenario", "reporter-traces"], True)]
+    t, tv, ti = sanitizers.tsan(core, work, seed, tjobs)
     m["cov"]["asan"] = a
     m["cov"]["miri"] = mi
-    m["violations"].extend(av + mv)
-    m["inconclusive"].extend(ai + mii)
-    m["evaluations"] += len(a["runs"]) + sum(r.get("completed_schedules", 0) for r in mi["runs"])
+    m["cov"]["tsan"] = t
+    m["violations"].extend(av + mv + tv)
+    m["inconclusive"].extend(ai + mii + ti)
+    m["evaluations"] += len(a["runs"]) + len(t["runs"]) + sum(r.get("completed_schedules", 0) for r in mi["runs"])
+
+
+def add_tsan_quick(m, core, prop, work, seed):
+    """quick tier: the free-running stress engine under ThreadSanitizer (instrumented std), two
+    configurations; the build is made by setup.sh and is incremental here"""
+    import sanitizers
+    jobs = [("stress-default", "stress", ["--config", "default", "--seed", str(seed + 11), "--jobs", "2500", "--interval-us", "300", "--fillers", "2", "--time-limit", "40"], True),
+            ("stress-cancelable", "stress", ["--config", "cancelable", "--seed", str(seed + 12), "--jobs", "2000", "--interval-us", "0", "--fillers", "1", "--time-limit", "40"], True)]
+    t, tv, ti = sanitizers.tsan(core, work, seed, jobs)
+    m["cov"]["tsan"] = t
+    m["violations"].extend(tv)
+    m["inconclusive"].extend(ti)
+    m["evaluations"] += sum(r.get("executions") or 0 for r in t["runs"])
 
 
 def add_hostile(m, core, prop, work, tier, names, known_sigs):
@@ -193,7 +213,10 @@ def c01(prop, tier, seed, core):
     m = core.check_progsim_family(prop, tier, seed)
     if tier == "thorough":
         add_sanitizers(m, core, prop, os.path.join(core.WORK, prop), seed)
-        m["rule"] = core.RULES["progsim"] + " Thorough adds AddressSanitizer builds of stress / progsim and Miri runs (16 schedules x 4 programs) of a tiny multi-threaded span program."
+        m["rule"] = core.RULES["progsim"] + " Thorough adds AddressSanitizer and ThreadSanitizer (instrumented std) builds of stress / progsim / hostile and Miri runs (16 schedules x 4 programs) of a tiny multi-threaded span program."
+    else:
+        add_tsan_quick(m, core, prop, os.path.join(core.WORK, prop), seed)
+        m["rule"] = core.RULES["progsim"] + " The quick tier also runs the stress engine (4500 jobs, two configurations) in a ThreadSanitizer build with an instrumented standard library; a report is a violation."
     return m
 
 
